@@ -101,15 +101,20 @@ def fixed_lattice(tier, seed, classes=None, stochastic=False):
       ("quantized_bits", dict(bits=4, integer=0, symmetric=1, keep_negative=True)),
       ("quantized_bits", dict(bits=4, integer=1, symmetric=0, keep_negative=False)),
       ("quantized_bits", dict(bits=1, integer=0, symmetric=0, keep_negative=True)),
+      ("quantized_bits", dict(bits=1, integer=0, symmetric=0, keep_negative=False)),
+      ("quantized_bits", dict(bits=1, integer=1, symmetric=1, keep_negative=False)),
+      ("quantized_bits", dict(bits=2, integer=1, symmetric=1, keep_negative=True)),
       ("quantized_bits", dict(bits=3, integer=2, symmetric=1, keep_negative=True, alpha=0.5)),
       ("quantized_bits", dict(bits=6, integer=1, symmetric=0, keep_negative=True, alpha=2.0)),
       ("quantized_linear", dict(bits=8, integer=3, symmetric=1, keep_negative=True)),
       ("quantized_linear", dict(bits=4, integer=0, symmetric=0, keep_negative=True)),
       ("quantized_linear", dict(bits=3, integer=1, symmetric=1, keep_negative=False)),
       ("quantized_linear", dict(bits=1, integer=0, symmetric=1, keep_negative=True)),
+      ("quantized_linear", dict(bits=1, integer=1, symmetric=0, keep_negative=False)),
       ("quantized_linear", dict(bits=4, integer=2, symmetric=0, keep_negative=True, alpha=0.5)),
       ("quantized_relu", dict(bits=8, integer=3)),
       ("quantized_relu", dict(bits=4, integer=1, negative_slope=0.25)),
+      ("quantized_relu", dict(bits=2, integer=0, negative_slope=0.5)),
       ("quantized_relu", dict(bits=4, integer=2, negative_slope=0.125)),
       ("quantized_relu", dict(bits=4, integer=0, use_sigmoid=1)),
       ("quantized_relu", dict(bits=6, integer=2, use_sigmoid=1, negative_slope=0.25)),
